@@ -37,5 +37,7 @@ pub mod layout {
 //@include air/layouts/starknet_mid.rs
 //@iffeature mid_starknet_with_keccak
 //@include air/layouts/starknet_with_keccak_mid.rs
+//@iffeature mid_dynamic
+//@include air/layouts/dynamic_mid.rs
 } // mod layout
 } // mod swiftness_air
